@@ -210,6 +210,16 @@ func Main(tier, replay string) {
 			add("OpB", "missing", "POST", base+"/b", ``, "application/json", kOp)
 			add("Inh", "valid", "GET", base+"/inherit", "", "", kInh)
 			add("List", "valid", "GET", base+"/list", "", "", kOp)
+			// the same valid requests delivered with a context that is already cancelled / past its deadline: the
+			// authorization decision may not depend on it
+			for _, cs := range []string{"cancelled", "deadline"} {
+				from := len(out)
+				add("OpQ", "valid", "GET", base+"/q?n=5", "", "", kOp)
+				add("Inh", "valid", "GET", base+"/inherit", "", "", kInh)
+				for i := from; i < len(out); i++ {
+					out[i].CtxState = cs
+				}
+			}
 			return out
 		}
 		patch := map[string]any{}
